@@ -635,6 +635,12 @@ pub fn driver_main(def: &CheckDef, tier: Tier, seed: u64, evidence_out: Option<S
         };
         let Some(status) = status else {
             eprintln!("INCONCLUSIVE property={id}: shard {s} exceeded the watchdog ({budget_s}s) and was killed");
+            // name the case it was working on (journaled checks), so that a slow class can be looked at
+            if let Ok(j) = std::fs::read(out.with_extension("journal")) {
+                let t = String::from_utf8_lossy(&j);
+                let first = t.split("\n\"}").next().unwrap_or("");
+                eprintln!("  in-flight case of shard {s} (first 600 bytes): {}", first.chars().take(600).collect::<String>());
+            }
             exit = exit.max(2);
             exhaustive = false;
             continue;
